@@ -28,9 +28,9 @@ type CaseSpec struct {
 	After      int  `json:"after"`      // same
 	Pred       int  `json:"pred"`       // 0 nil, 1 AnyError, 2 Error(exact), 3 ErrorHasPrefix, 4 ErrorHasSuffix, 5 ErrorMatch(valid), 6 ErrorMatch(invalid pattern), 7 ErrorMatch(first line of the error text followed by .*$: met only by one-line texts), 8 a caller's own predicate that says no without reporting anything, 9 a caller's own predicate that always says yes, 10 a caller's own predicate that reports and says no
 	PredHit    bool `json:"pred_hit"`   // predicate text chosen to match (true) or to miss (false) the scripted error text
-	MOut       int  `json:"m_out"`      // marshal: 0 right data, 1 wrong data, 2 nil data, 3 the right data with a line feed added at (or, with NLData, removed from) its end
-	MErr       int  `json:"m_err"`      // marshal: 0 no error, 1 error, 2 panic, 3 an error value that is a nil pointer of an error type, 4 error with a two-line text, 5 panic whose text is the same for every case and list, 6 panic with a value whose own Error method panics (only "some error" is known of the result)
-	UStore     int  `json:"u_store"`    // unmarshal: 0 stores the expected value, 1 stores a different value, 2 stores nothing, 3 stores the empty value (for a slice type: an empty, non-nil slice)
+	MOut       int  `json:"m_out"`      // marshal: 0 right data, 1 wrong data, 2 nil data, 3 the right data with a line feed added at (or, with NLData, removed from) its end, 4 the same JSON value in other bytes (a space after the colon), 5 the right data with one letter in the other case
+	MErr       int  `json:"m_err"`      // marshal: 0 no error, 1 error, 2 panic, 3 an error value that is a nil pointer of an error type, 4 error with a two-line text, 5 panic whose text is the same for every case and list, 6 panic with a value whose own Error method panics (only "some error" is known of the result), 7 an error that wraps another one (a missing predicate then names the text of the wrapped cause)
+	UStore     int  `json:"u_store"`    // unmarshal: 0 stores the expected value, 1 stores a different value, 2 stores nothing, 3 stores the empty value (for a slice type: an empty, non-nil slice), 4 / 5 / 6 stores a value that differs from the expected one in letter case only / by a trailing space only / beyond the low 32 bits of its number only
 	UErr       int  `json:"u_err"`      // unmarshal: 0 no error, 1 error, 2 panic (after storing), 3 nil-pointer error value, 4 error with a two-line text, 5 panic whose text is the same for every case and list, 6 panic with a value whose own Error method panics (only "some error" is known of the result)
 	NilValue   bool `json:"nil_value"`  // pointer type only: the case's Value is a nil pointer
 	EmptyData  bool `json:"empty_data"` // OnlyMarshal cases only: the expected Data is empty (the marshaler returns nil or an empty slice)
@@ -57,6 +57,7 @@ type mScript struct {
 	panic string
 }
 type uScript struct {
+	want    string // the case's Data: the scripted unmarshaler refuses any other input, also one that differs in white space only
 	store   bool
 	tag     int
 	payload string
@@ -93,7 +94,7 @@ func (e *brokenError) Error() string { return *e.text }
 const panicWithBrokenValue = "\x00panic with a value whose Error method panics"
 
 func doUnmarshal(data []byte, set func(tag int, payload string)) error {
-	tag, err := strconv.Atoi(strings.TrimSpace(strings.TrimPrefix(string(data), "u:")))
+	tag, err := strconv.Atoi(strings.TrimSpace(strings.TrimSuffix(strings.TrimPrefix(strings.TrimSpace(string(data)), `{"u":`), "}")))
 	if err != nil {
 		return fmt.Errorf("bad scripted input %q", data)
 	}
@@ -102,6 +103,9 @@ func doUnmarshal(data []byte, set func(tag int, payload string)) error {
 		return fmt.Errorf("no unmarshal script for tag %d", tag)
 	}
 	s := v.(uScript)
+	if s.want != string(data) {
+		return fmt.Errorf("the scripted unmarshaler of tag %d was handed %q, the case holds %q", tag, data, s.want)
+	}
 	if s.store {
 		set(s.tag, s.payload)
 	}
@@ -364,6 +368,7 @@ type errInfo struct {
 	isErr  bool
 	exact  string // full text when known ("" when only a prefix is known)
 	prefix string
+	inner  string // the text of the error wrapped inside (kind 7): a text that is in the chain but is not the error's text
 }
 
 func marker(i int) string { return "\x01no-such-text-" + strconv.Itoa(i) + "\x02" }
@@ -383,6 +388,9 @@ func predicate(cs CaseSpec, idx int, e errInfo) (fn test.AssertErrorFunc, text s
 		return test.AnyError, ""
 	case 2:
 		text = "other text " + marker(idx)
+		if !hit && e.inner != "" {
+			text = e.inner // the text of the wrapped cause is not the text of the error
+		}
 		if hit && e.exact != "" {
 			text = e.exact
 		} else if hit && e.prefix != "" {
@@ -391,6 +399,9 @@ func predicate(cs CaseSpec, idx int, e errInfo) (fn test.AssertErrorFunc, text s
 		return test.Error(text), text
 	case 3:
 		text = marker(idx)
+		if !hit && e.inner != "" {
+			text = e.inner
+		}
 		if hit {
 			text = known
 		}
@@ -408,6 +419,9 @@ func predicate(cs CaseSpec, idx int, e errInfo) (fn test.AssertErrorFunc, text s
 		return test.ErrorHasSuffix(text), text
 	case 5:
 		text = "^no-such-text-" + strconv.Itoa(idx) + "$"
+		if !hit && e.inner != "" {
+			text = "^" + regexp.QuoteMeta(e.inner) + "$"
+		}
 		if hit {
 			text = "^" + regexp.QuoteMeta(known)
 		}
@@ -523,6 +537,8 @@ func errOf(cs CaseSpec, marshal bool, tag int) errInfo {
 			return errInfo{isErr: true, prefix: "panic: boom again\n"}
 		case cs.MErr == 6:
 			return errInfo{isErr: true, prefix: "panic: "}
+		case cs.MErr == 7:
+			return errInfo{isErr: true, exact: "wrapped " + t + ": cause " + t, prefix: "wrapped " + t + ": cause " + t, inner: "cause " + t}
 		}
 		return errInfo{}
 	}
@@ -543,6 +559,8 @@ func errOf(cs CaseSpec, marshal bool, tag int) errInfo {
 		return errInfo{isErr: true, prefix: "panic: boom again\n"}
 	case 6:
 		return errInfo{isErr: true, prefix: "panic: "}
+	case 7:
+		return errInfo{isErr: true, exact: "uwrapped " + t + ": ucause " + t, prefix: "uwrapped " + t + ": ucause " + t, inner: "ucause " + t}
 	}
 	return errInfo{}
 }
@@ -619,9 +637,9 @@ func runList[T any](spec ListSpec, mkValue func(tag int, payload string, isNil b
 		cs := spec.Cases[i]
 		tag := base + i
 		pred, _ := predicate(cs, i, errOf(cs, marshal, tag))
-		data := "u:" + strconv.Itoa(tag)
+		data := `{"u":` + strconv.Itoa(tag) + "}" // a JSON document, so that "the same document in other bytes" exists (MOut 4, 5)
 		if cs.NLData {
-			data += "\n"
+			data = [4]string{"", " ", "\t", "\r\n "}[i%4] + data + "\n"
 		}
 		if cs.EmptyData {
 			data = ""
@@ -632,6 +650,10 @@ func runList[T any](spec ListSpec, mkValue func(tag int, payload string, isNil b
 			ms.data = []byte(data)
 		case 1:
 			ms.data = []byte(data + "-wrong")
+		case 4:
+			ms.data = []byte(strings.Replace(data, `{"u":`, `{"u": `, 1)) // the same JSON value in other bytes
+		case 5:
+			ms.data = []byte(strings.Replace(data, `{"u":`, `{"U":`, 1)) // differs in the case of one letter only
 		case 3:
 			if strings.HasSuffix(data, "\n") {
 				ms.data = []byte(strings.TrimSuffix(data, "\n"))
@@ -652,9 +674,11 @@ func runList[T any](spec ListSpec, mkValue func(tag int, payload string, isNil b
 			ms.panic = "boom again"
 		case 6:
 			ms.panic = panicWithBrokenValue
+		case 7:
+			ms.err = fmt.Errorf("wrapped %d: %w", tag, errors.New("cause "+strconv.Itoa(tag)))
 		}
 		mReg.Store(tag, ms)
-		us := uScript{tag: tag, payload: "p" + strconv.Itoa(tag)}
+		us := uScript{want: data, tag: tag, payload: "p" + strconv.Itoa(tag)}
 		switch cs.UStore {
 		case 0:
 			us.store = true
@@ -664,6 +688,15 @@ func runList[T any](spec ListSpec, mkValue func(tag int, payload string, isNil b
 		case 3:
 			us.store = true
 			us.tag, us.payload = 0, ""
+		case 4:
+			us.store = true
+			us.payload = strings.ToUpper(us.payload) // differs in letter case only
+		case 5:
+			us.store = true
+			us.payload += " " // differs by a trailing space only
+		case 6:
+			us.store = true
+			us.tag += 1 << 32 // differs beyond the low 32 bits only
 		}
 		switch cs.UErr {
 		case 3:
@@ -678,6 +711,8 @@ func runList[T any](spec ListSpec, mkValue func(tag int, payload string, isNil b
 			us.panic = "boom again"
 		case 6:
 			us.panic = panicWithBrokenValue
+		case 7:
+			us.err = fmt.Errorf("uwrapped %d: %w", tag, errors.New("ucause "+strconv.Itoa(tag)))
 		}
 		uReg.Store(tag, us)
 		defer mReg.Delete(tag)
@@ -883,6 +918,9 @@ func normalise(spec ListSpec) ListSpec {
 		if c.Constraint != 1 {
 			c.EmptyData = false // an empty Data cannot carry the scripted unmarshal input
 		}
+		if c.EmptyData && (c.MOut == 4 || c.MOut == 5) {
+			c.MOut = 1 // there is no "same value in other bytes" of an empty text
+		}
 		if strings.HasSuffix(spec.Helper, "Binary") {
 			// CaseBinary.Data is a []byte: whether a nil result "differs" from an empty non-nil expectation (or vice versa) is
 			// not settled by the statement (the helper follows testify and says it does); the text and JSON helpers compare
@@ -1049,10 +1087,10 @@ func genCase(rt *rapid.T) CaseSpec {
 		After:      hookG.Draw(rt, "after"),
 		Pred:       rapid.SampledFrom([]int{0, 0, 0, 0, 1, 2, 3, 4, 5, 5, 6, 7, 7, 8, 9, 10}).Draw(rt, "pred"),
 		PredHit:    rapid.Bool().Draw(rt, "predHit"),
-		MOut:       rapid.SampledFrom([]int{0, 0, 1, 2, 3}).Draw(rt, "mOut"),
-		MErr:       rapid.SampledFrom([]int{0, 0, 1, 2, 3, 4, 5, 6}).Draw(rt, "mErr"),
-		UStore:     rapid.SampledFrom([]int{0, 0, 1, 2, 3}).Draw(rt, "uStore"),
-		UErr:       rapid.SampledFrom([]int{0, 0, 1, 2, 3, 4, 5, 6}).Draw(rt, "uErr"),
+		MOut:       rapid.SampledFrom([]int{0, 0, 1, 2, 3, 4, 5}).Draw(rt, "mOut"),
+		MErr:       rapid.SampledFrom([]int{0, 0, 1, 2, 3, 4, 5, 6, 7}).Draw(rt, "mErr"),
+		UStore:     rapid.SampledFrom([]int{0, 0, 1, 2, 3, 4, 5, 6}).Draw(rt, "uStore"),
+		UErr:       rapid.SampledFrom([]int{0, 0, 1, 2, 3, 4, 5, 6, 7}).Draw(rt, "uErr"),
 		NilValue:   rapid.IntRange(0, 9).Draw(rt, "nilValue") == 0,
 		EmptyData:  rapid.IntRange(0, 7).Draw(rt, "emptyData") == 0,
 		NLData:     rapid.IntRange(0, 7).Draw(rt, "nlData") == 0,
@@ -1145,6 +1183,29 @@ func TestCheck(t *testing.T) {
 			for _, pred := range []int{0, 1, 8, 9, 10} {
 				for out := 0; out < 3; out++ {
 					specs = append(specs, CaseSpec{Constraint: con, Pred: pred, MOut: out, MErr: 6, UStore: out, UErr: 6})
+				}
+			}
+		}
+		for con := 0; con < 3; con++ { // results that differ from the expected ones only slightly: other bytes of the same JSON value, letter case, a trailing space, a high bit
+			for _, pred := range []int{0, 1, 3} {
+				for _, er := range []int{0, 1} {
+					for _, nl := range []bool{false, true} {
+						for _, out := range []int{4, 5} {
+							specs = append(specs, CaseSpec{Constraint: con, NLData: nl, Pred: pred, PredHit: true, MOut: out, MErr: er, UStore: out, UErr: er})
+						}
+						specs = append(specs, CaseSpec{Constraint: con, NLData: nl, Pred: pred, PredHit: true, MOut: 4, MErr: er, UStore: 6, UErr: er})
+					}
+				}
+			}
+		}
+		for con := 0; con < 3; con++ { // errors that wrap another error, against every predicate kind: a predicate judges the error's own text
+			for pred := 0; pred <= 7; pred++ {
+				for hit := 0; hit < 2; hit++ {
+					for out := 0; out < 3; out++ {
+						for _, nl := range []bool{false, true} {
+							specs = append(specs, CaseSpec{Constraint: con, NLData: nl, Pred: pred, PredHit: hit == 1, MOut: out, MErr: 7, UStore: out, UErr: 7})
+						}
+					}
 				}
 			}
 		}
